@@ -531,6 +531,45 @@ theorem sink_lines_are_the_successes (c : Bool) (strOf : Nat → Except Err Str)
     exact emitted_one_newline strOf p.1 p.2 s' hser
   | error e => rw [hser] at hp; simp [Except.toOption] at hp
 
+/-- THE CONSUMER'S VIEW: whatever history of records a serialising handler has written to its sink, a
+line-by-line reader of the concatenated output gets back exactly the messages, one per serialisable record,
+in order – no message is split, none are merged (this is what NDJSON shippers rely on); and the output
+contains no CR, so universal-newlines readers see the same lines -/
+theorem file_read_back_line_by_line (c : Bool) (strOf : Nat → Except Err Str) (h : List (Str × Record)) :
+    readLines (sinkLines c true strOf h).flatten = sinkLines c true strOf h ∧
+    '\r' ∉ (sinkLines c true strOf h).flatten ∧
+    (sinkLines c true strOf h).flatten.count '\n' = (sinkLines c true strOf h).length := by
+  have hl : ∀ l ∈ sinkLines c true strOf h, ∃ body, l = body ++ ['\n'] ∧ ∀ x ∈ body, x ≠ '\n' ∧ x ≠ '\r' := by
+    intro l hl
+    rw [(sink_lines_are_the_successes c strOf h).1, List.mem_filterMap] at hl
+    obtain ⟨p, _, hp⟩ := hl
+    cases hser : serializeRecord strOf p.1 p.2 with
+    | ok s' =>
+      rw [hser] at hp
+      simp only [Except.toOption, Option.some.injEq] at hp
+      subst hp
+      exact emitted_is_one_line strOf p.1 p.2 s' hser
+    | error e => rw [hser] at hp; simp [Except.toOption] at hp
+  refine ⟨readLines_flatten _ (fun l hm => ?_), ?_, ?_⟩
+  · obtain ⟨b, hb, hx⟩ := hl l hm
+    exact ⟨b, hb, fun x hxm => (hx x hxm).1⟩
+  · intro hm
+    rw [List.mem_flatten] at hm
+    obtain ⟨l, hlm, hr⟩ := hm
+    obtain ⟨b, rfl, hx⟩ := hl l hlm
+    rcases List.mem_append.1 hr with hr | hr
+    · exact (hx _ hr).2 rfl
+    · simp at hr
+  · generalize sinkLines c true strOf h = ls at hl
+    induction ls with
+    | nil => rfl
+    | cons l t ih =>
+      obtain ⟨b, hbl, hx⟩ := hl l (List.mem_cons_self ..)
+      subst hbl
+      have hb : b.count '\n' = 0 := List.count_eq_zero.2 (fun hm => (hx _ hm).1 rfl)
+      have := ih (fun x hxm => hl x (List.mem_cons_of_mem _ hxm))
+      simp [List.count_append, hb, this]
+
 /-! ### non-vacuity -/
 
 def exFloat : FloatTok := ⟨"1.5e-07".toList, by decide⟩
@@ -589,6 +628,8 @@ example : ∃ s, sinkLines true true exStrOk [(K "x\n", exBadRecord), (K "y\n", 
   obtain ⟨s, hs⟩ := serialize_total_partial exStrOk (K "y\n") exRecord (by decide) (fun o _ => ⟨_, rfl⟩)
   obtain ⟨e, he⟩ := nonscalar_key_loses_record exStrOk (K "x\n") exBadRecord ⟨7, by decide⟩
   exact ⟨s, by rw [(sink_lines_are_the_successes true exStrOk _).1]; simp [hs, he, Except.toOption]⟩
+example : readLines "{\"a\": 1}\n{\"b\": \"\u2028\"}\n".toList = ["{\"a\": 1}\n".toList, "{\"b\": \"\u2028\"}\n".toList] := by
+  decide
 example : (emitHistory exStrOk [(K "x\n", exBadRecord), (K "y\n", exRecord)])[1]? =
     some (serializeRecord exStrOk (K "y\n") exRecord) := by
   rw [history_pointwise]; rfl
